@@ -96,7 +96,8 @@ class MaildirLayout(Protocol[_MaildirT]):
 
     @abstractmethod
     def add_folder(self, name: str, delimiter: str) -> None:
-        """Add a new sub-folder.
+        """Add a new sub-folder, with the parent folders that the layout needs
+        and that do not exist.
 
         Args:
             name: The delimited sub-folder name, not including inbox.
@@ -104,7 +105,6 @@ class MaildirLayout(Protocol[_MaildirT]):
 
         Raises:
             FileExistsError: The folder already exists.
-            FileNotFoundError: A parent folder did not exist.
 
         """
         ...
@@ -151,6 +151,10 @@ class _BaseLayout(MaildirLayout[_MaildirT], metaclass=ABCMeta):
     #: The character that a part of a mailbox name cannot contain, because the
     #: layout itself joins the parts with it on disk.
     _separator: ClassVar[str | None] = None
+
+    #: True if a folder is a sub-directory of its parent folder, which then
+    #: must exist before it.
+    _nested: ClassVar[bool] = False
 
     def __init__(self, path: str, maildir_type: type[_MaildirT]) -> None:
         super().__init__()
@@ -218,17 +222,25 @@ class _BaseLayout(MaildirLayout[_MaildirT], metaclass=ABCMeta):
         except NoSuchMailboxError as exc:
             raise FileNotFoundError(path) from exc
 
-    def add_folder(self, name: str, delimiter: str) -> None:
-        parts = self._split(name, delimiter)
-        for i in range(1, len(parts) - 1):
-            path = self._get_path(parts[0:i])
-            if not os.path.isdir(path):
-                raise FileNotFoundError(path)
+    def _add_folder(self, parts: _Parts) -> None:
         path = self._get_path(parts)
         self._maildir(path, create=True)
         maildirfolder = os.path.join(path, 'maildirfolder')
         with open(maildirfolder, 'x'):
             pass
+
+    def _add_parents(self, parts: _Parts) -> None:
+        # RFC 3501 6.3.3, 6.3.5: the server SHOULD create any superior
+        # hierarchical names that are needed.
+        if self._nested:
+            for i in range(1, len(parts)):
+                if not os.path.isdir(self._get_path(parts[0:i])):
+                    self._add_folder(parts[0:i])
+
+    def add_folder(self, name: str, delimiter: str) -> None:
+        parts = self._split(name, delimiter)
+        self._add_parents(parts)
+        self._add_folder(parts)
 
     def remove_folder(self, name: str, delimiter: str) -> None:
         parts = self._split(name, delimiter)
@@ -248,12 +260,11 @@ class _BaseLayout(MaildirLayout[_MaildirT], metaclass=ABCMeta):
                       delimiter: str) -> None:
         source_parts = self._split(source_name, delimiter)
         dest_parts = self._split(dest_name, delimiter)
-        for i in range(1, len(dest_parts) - 1):
-            parts = dest_parts[0:i]
-            path = self._get_path(parts)
+        if self._nested:
+            path = self._get_path(source_parts)
             if not os.path.isdir(path):
-                name = self._join(parts, delimiter)
-                self.add_folder(name, delimiter)
+                raise FileNotFoundError(path)
+        self._add_parents(dest_parts)
         self._rename_folder(source_parts, dest_parts)
 
 
@@ -334,6 +345,8 @@ class FilesystemLayout(_BaseLayout[_MaildirT]):
         'new', 'cur', 'tmp', 'maildirfolder', 'subscriptions',
         'subscriptions.lock', 'dovecot-uidlist', 'dovecot-uidlist.lock',
         'dovecot-keywords', 'dovecot.sieve'])
+
+    _nested = True
 
     def _get_path(self, parts: _Parts) -> str:
         return os.path.join(self._path, *parts)
